@@ -68,13 +68,38 @@ def oracle(spec, o):
     # reachable under one name twice (the same package as a bare-tag import twice) is not decided by the sentence
     dup = {n: l for n, l in by.items() if len(set(l)) > 1}
     selfdup = {n: l for n, l in by.items() if len(l) > 1 and len(set(l)) == 1}
+    rep = dict(dup)
+    rep.update(selfdup)                               # every repeated name, with what it stands for
+    ident = {i: c07gen.ident(d) for i, d in defs.items()}
+
+    def group_ok(g):
+        """does a reported group name real repeated definitions? returns None or the complaint"""
+        if g["kind"] == "multi":
+            ok_ids = [ident[w[1]] for w in rep.get(g["key"], []) if w[0] == "def"]
+            if g["key"] not in rep or len(g["ids"]) < 2 or any(i not in ok_ids for i in g["ids"]):
+                return "the message says %r has multiple definitions %s; the definitions with that name are %s" % (g["key"], g["ids"], ok_ids)
+        elif g["kind"] == "alias":
+            ok_ids = [ident[w[1]] for w in dup.get(g["key"], []) if w[0] == "def"]
+            ok_ids += [ident[a["ref"]] for a in spec["aliases"] if a["key"].lower() == g["key"]]
+            if g["key"] not in dup or not any(w[0] == "alias" for w in dup[g["key"]]) or not g["ids"] or any(i not in ok_ids for i in g["ids"]):
+                return "the message says alias %r duplicates %s; colliding with that name are %s" % (g["key"], g["ids"], ok_ids)
+        else:
+            # names only: some package must hold exactly these names under one lower-cased receiver:name
+            pkgs = {}
+            for i, d in defs.items():
+                pkgs.setdefault(d["pkg"], {}).setdefault(((d["recv"] + ":") if d["recv"] else "").lower() + d["name"].lower(), []).append(d["name"])
+            if not any(len(ns) > 1 and sorted(ns) == sorted(g["ids"]) for p in pkgs.values() for ns in p.values()):
+                return "the message lists %s as conflicting; no package defines exactly these under one name" % g["ids"]
+        return None
+
     if not dup and selfdup and o["rc"] != 0:
+        # undecided by the sentence: a rejection is tolerated if it names exactly such definitions
         if o["rc"] != 1 or o["class"] != "dupe" or not o["groups"]:
             return "exit %d (%s) for a package whose only repeated names are one definition imported twice: %s" % (o["rc"], o["class"], o["stderr"][-300:].strip())
         for g in o["groups"]:
-            ok_ids = [c07gen.ident(defs[w[1]]) for w in selfdup.get(g["key"], [])]
-            if g["kind"] != "multi" or g["key"] not in selfdup or any(i not in ok_ids for i in g["ids"]):
-                return "the message names %r %s; the only repeated names are %s" % (g["key"], g["ids"], sorted(selfdup))
+            bad = group_ok(g)
+            if bad:
+                return bad
         return None
     if not dup:
         if o["rc"] != 0:
@@ -100,29 +125,12 @@ def oracle(spec, o):
             some, len(dup[some]), o["rc"], o["class"], o["stderr"][-300:].strip())
     if not o["groups"]:
         return "rejected, but the message names no definitions: %s" % o["stderr"][-300:].strip()
-    ident = {i: c07gen.ident(d) for i, d in defs.items()}
     for g in o["groups"]:
-        if g["kind"] == "multi":
-            ok_ids = [ident[w[1]] for w in dup.get(g["key"], []) if w[0] == "def"]
-            if g["key"] not in dup or len(g["ids"]) < 2 or any(i not in ok_ids for i in g["ids"]):
-                return "the message says %r has multiple definitions %s; the definitions with that name are %s" % (g["key"], g["ids"], ok_ids)
-        elif g["kind"] == "alias":
-            ok_ids = [ident[w[1]] for w in dup.get(g["key"], []) if w[0] == "def"]
-            ok_ids += [ident[a["ref"]] for a in spec["aliases"] if a["key"].lower() == g["key"]]
-            if g["key"] not in dup or not any(w[0] == "alias" for w in dup[g["key"]]) or not g["ids"] or any(i not in ok_ids for i in g["ids"]):
-                return "the message says alias %r duplicates %s; colliding with that name are %s" % (g["key"], g["ids"], ok_ids)
-        else:
-            # names only: some package must hold exactly these names under one lower-cased receiver:name
-            found = False
-            pkgs = {}
-            for i, d in defs.items():
-                pkgs.setdefault(d["pkg"], {}).setdefault(((d["recv"] + ":") if d["recv"] else "").lower() + d["name"].lower(), []).append(d["name"])
-            for p in pkgs.values():
-                for k, ns in p.items():
-                    if len(ns) > 1 and sorted(ns) == sorted(g["ids"]):
-                        found = True
-            if not found:
-                return "the message lists %s as conflicting; no package defines exactly these under one name" % g["ids"]
+        bad = group_ok(g)
+        if bad:
+            return bad
+    if not any(g["kind"] != "multi" or g["key"] in dup for g in o["groups"]):
+        return "rejected, but no group of the message is one of the real collisions %s: %s" % (sorted(dup), o["groups"])
     return None
 
 
